@@ -44,7 +44,7 @@ var Mem = map[string][]string{
 	"ovf":    {"18446744073709551616", "99999999999999999999", "36893488147419103232"},
 	"u64":    {"9223372036854775808", "18446744073709551615", "9223372036854777856"},
 	"max64":  {"9223372036854775807", "4611686018427387904", "2147483648"},
-	"nonnum": {"abc", "2500Mi", "2_500"},
+	"nonnum": {"abc", "2500Mi", "25OO"},
 	"dec":    {"0.5", "2500.5", "1.25"},
 }
 
